@@ -228,10 +228,15 @@ def replay(case):
                 return [V("dump-differs-in-same-process", case, name, site=name)]
             if name == case["after"]:
                 break
-        return []
+        # a difference whose source is randomised inside an extension module (D13: per-instance hash-map order in AEON) shows up
+        # only in some repetitions: repeat the plain second run a few times, then compare fresh processes, before giving up
+        for _ in range(6):
+            if full_dump(net, case["strategy"]) != base:
+                return [V("dump-differs-in-same-process", case, "again (repeated)", site=case["after"])]
+        case = dict(case, kind="proc")
     # cross-process: run the single (network, strategy) under a range of hash seeds
     seen = set()
-    for seed in range(64):
+    for seed in range(16 if case.get("after") else 64):
         env = dict(os.environ, PYTHONHASHSEED=str(seed))
         code = ("import sys,json,hashlib;from bbmc import universe as U;from bbmc.envdump import full_dump;"
                 "print('SHA',hashlib.sha1(full_dump(U.resolve(json.loads(sys.argv[1])),sys.argv[2]).encode()).hexdigest())")
@@ -240,9 +245,9 @@ def replay(case):
             if l.startswith("SHA "):
                 seen.add(l[4:])
         if len(seen) > 1:
-            return [V("dump-differs-across-processes", case, f"{len(seen)} dumps within seeds 0..{seed}", site="process")]
+            return [V("dump-differs-in-same-process" if case.get("after") else "dump-differs-across-processes", case, f"{len(seen)} dumps within seeds 0..{seed}", site=case.get("after") or "process")]
     # alone in a fresh process vs inside the batches (forward and reversed)
-    for bname in ("small", "small:rev", "big", "big:rev"):
+    for bname in (() if case.get("after") else ("small", "small:rev", "big", "big:rev")):
         try:
             d = run_proc(0, bname)
         except Exception:
